@@ -2,6 +2,7 @@ package rdbgen
 
 import (
 	"errors"
+	"sync/atomic"
 
 	"verif/harness/lib/prng"
 )
@@ -51,6 +52,9 @@ func LZFDecompress(in []byte, outlen int) ([]byte, error) {
 // LZFCompress produces a valid LZF stream for plain with a randomised shape: literal runs of random
 // length, back-references picked among several candidates (near ones give overlapping copies), match
 // lengths randomly shortened, lengths >= 9 use the extended (7+ext) form.
+// FarRefs counts emitted back-references whose distance needs the high offset bits (evidence only).
+var FarRefs int64
+
 func LZFCompress(rng *prng.R, plain []byte) []byte {
 	var out []byte
 	var lit []byte
@@ -68,8 +72,18 @@ func LZFCompress(rng *prng.R, plain []byte) []byte {
 			lit = lit[n:]
 		}
 	}
+	// positions of every 3-byte sequence seen so far: far matches (distance > 256 needs the offset's high
+	// bits) are found deliberately, not by luck
+	tri := map[[3]byte][]int{}
+	indexed := 0
 	i := 0
 	for i < len(plain) {
+		for ; indexed < i && indexed+3 <= len(plain); indexed++ {
+			k := [3]byte{plain[indexed], plain[indexed+1], plain[indexed+2]}
+			if len(tri[k]) < 64 {
+				tri[k] = append(tri[k], indexed)
+			}
+		}
 		bestLen, bestDist := 0, 0
 		if i >= 1 && i+3 <= len(plain) && !rng.Chance(1, 6) {
 			// candidate distances: a window of near ones plus a few far ones
@@ -95,6 +109,22 @@ func LZFCompress(rng *prng.R, plain []byte) []byte {
 				try(i)
 				try(i - 1)
 			}
+			if cand := tri[[3]byte{plain[i], plain[i+1], plain[i+2]}]; len(cand) > 0 {
+				far := rng.Chance(1, 2) // prefer the farthest occurrence half of the time
+				for k := 0; k < 6 && k < len(cand); k++ {
+					q := cand[rng.Intn(len(cand))]
+					if far {
+						q = cand[k]
+					}
+					if far && bestLen >= 3 && i-q < bestDist {
+						continue
+					}
+					try(i - q)
+					if far && bestLen >= 3 && bestDist == i-q {
+						break
+					}
+				}
+			}
 		}
 		if bestLen >= 3 {
 			l := bestLen
@@ -103,6 +133,9 @@ func LZFCompress(rng *prng.R, plain []byte) []byte {
 			}
 			flush()
 			d := bestDist - 1
+			if d >= 256 {
+				atomic.AddInt64(&FarRefs, 1)
+			}
 			if l-2 < 7 {
 				out = append(out, byte((l-2)<<5|d>>8), byte(d))
 			} else {
